@@ -452,7 +452,9 @@ pub fn generate(spec: &Spec) -> (Vec<Base>, Vec<(u32, u32, Vec<Op>, String)>) {
 }
 
 pub fn default_renditions() -> Vec<Vec<u32>> {
-    vec![vec![], vec![1, 31, 44, 7], vec![27]]
+    // the second one sets every flag and both colours (an operation that copies the rendition
+    // field by field must not forget one)
+    vec![vec![], vec![1, 3, 4, 5, 7, 9, 31, 44], vec![27]]
 }
 
 pub fn default_charsets() -> Vec<(bool, &'static str, &'static str)> {
